@@ -18,6 +18,7 @@ EXPLANATION = (
     "C04.5 segments are not forgotten: add_segment stores the previous segment record and links it; "
     "C04.6 nothing is dropped on the way to the free routine: every GlobalAlloc::dealloc reaches Dlmalloc::free with its argument on every path, and every remainder split off in try_realloc_chunk is handed to dispose_chunk on every path. "
     "C04.7 the two comparisons reuse hinges on: tmalloc_large passes over a fitting tree chunk only under dvsize >= size, and release_unused_segments unmaps under chunk_top >= top. "
+    "C04.9 a chunk put into a bin has been stamped free (size|PINUSE, foot) on every path, and sys_trim sweeps for releasable segments whatever the top released. "
     "C04.8 the catch-all tree bin (every size above compute_tree_index's bound) is walked with shift 0 in leftshift_for_tree_index, so the bits that order its tree are kept. "
     "NOT decided: the bound itself (a quantitative statement about fragmentation over arbitrary histories) and VmSize behaviour.")
 ASSUMPTIONS = ["dlmalloc's bin/tree invariants (not established here)"]
@@ -189,6 +190,54 @@ def run_one(ck, prog):
                     bad.append(edges)
             ck.ob("C04.8", "catch-all-bin-shifts-by-zero", seen_zero >= 1 and not bad, fn=lsh["path"], path=cl.cfg.render_path([0] + [e.dst for e in bad[0]]) if bad else None,
                   detail=f"for the catch-all tree bin ({B}) the tree-walk shift must be 0: that bin holds every size above the bound, a non-zero shift drops the bits that order its tree and free chunks in it stop being found")
+
+    # ---- C04.9 what goes into a bin is marked free first, and whole segments are looked for on every trim ------------------------------
+    # (a) a chunk handed to insert_chunk / insert_small_chunk / insert_large_chunk has, on every path, been stamped by
+    #     set_free_with_pinuse / set_size_and_pinuse_of_free_chunk (size | PINUSE, foot, successor's PINUSE cleared): a chunk binned
+    #     without PINUSE reads as "in use" to release_unused_segments and pins its segment for ever
+    MARKS = ("Chunk::set_free_with_pinuse", "Chunk::set_size_and_pinuse_of_free_chunk")
+    INSERTS = ("Dlmalloc::insert_chunk", "Dlmalloc::insert_small_chunk", "Dlmalloc::insert_large_chunk")
+    ALREADY_FREE = {("insert_chunk", "insert_small_chunk"): "dispatch inside insert_chunk", ("insert_chunk", "insert_large_chunk"): "dispatch inside insert_chunk",
+                    ("replace_dv", "insert_small_chunk"): "the old designated victim is a free chunk already",
+                    ("release_unused_segments", "insert_large_chunk"): "a free chunk taken out of its bin and put back when the unmap failed"}
+
+    def chunk_key(e):
+        e = strip_casts(e)
+        while isinstance(e, tuple) and e[0] == "call" and (e[1] or "").endswith(("::cast", "::cast_mut", "::cast_const")) and e[2]:
+            e = strip_casts(e[2][0])
+        return canon(e)
+    n_ins = 0
+    for p9, f9 in sorted(prog.fns.items()):
+        if not p9.startswith(DL):
+            continue
+        c9 = None
+        for b in f9["blocks"]:
+            t = b["term"]
+            if t["k"] != "call" or b.get("cleanup") or not (t.get("callee") or "").endswith(INSERTS):
+                continue
+            key = (p9.split("::")[-1], t["callee"].split("::")[-1])
+            if key in ALREADY_FREE:
+                continue
+            c9 = c9 or prog.ctx(f9)
+            if b["id"] not in c9.cfg.live_blocks():
+                continue
+            n_ins += 1
+            who = chunk_key(c9.args(b["id"])[1])
+            marks = {bb for bb, t2 in c9.cfg.calls(lambda t2: (t2.get("callee") or "").endswith(MARKS)) if chunk_key(c9.args(bb)[0]) == who}
+            unmarked = b["id"] in c9.cfg.reachable_from(0, avoid=marks)
+            ck.ob("C04.9", f"{key[0]}|binned-chunk-marked-free-first|{key[1]}({who})", bool(marks) and not unmarked, fn=p9, site=c9.site(b["id"]),
+                  detail=f"{key[1]}({who}, ..) can be reached without the chunk having been stamped free (size | PINUSE, foot) by {' / '.join(m.split('::')[-1] for m in MARKS)}")
+    ck.floor("C04.9", "chunks put into bins", n_ins, 4)
+    # (b) sys_trim looks for releasable segments whatever the top gave back: the call is not conditional on the amount released so far
+    stf = prog.fns.get(DL + "sys_trim")
+    if ck.anchor("C04.9", "sys_trim", stf):
+        sc9 = prog.ctx(stf)
+        rel9 = [bb for bb, t in sc9.cfg.calls(lambda t: (t.get("callee") or "").endswith("Dlmalloc::release_unused_segments"))]
+        relv = {z[1] for r in sc9.ret_expr().values() for z in walk_deep(r, sc9.prov) if z[0] == "var"}
+        for rb9 in rel9:
+            cond = [f for f in panics.dominating_facts(sc9, rb9) if f[0] == "cmp" and any(z[0] == "var" and z[1] in relv for x in (f[2], f[3]) for z in walk_deep(x, sc9.prov, limit=40))]
+            ck.ob("C04.9", "sys_trim|segments-swept-whatever-the-top-released", not cond, fn=stf["path"], site=sc9.site(rb9),
+                  detail="release_unused_segments is only called under a test of the amount already released: once the top gives something back, fully free older segments are never unmapped")
 
     # ---- C04.2 coalescing --------------------------------------------------------------------------------------------------
     top_edges = []
